@@ -61,6 +61,17 @@ def main():
                 errl = float(np.max(np.abs(gl - np.reshape(W, shape_out + shape_in))) / (1 + np.max(np.abs(W))))
                 if errl > 1e-9:
                     fail("linear-to-rounding", base_order=bo, err=errl)
+    # maps mixing linear entries with slowly converging nonlinear ones of one sign (adaptive extrapolation must not stop early)
+    for bo in (2, 3, 5):
+        for sgn in (1.0, -1.0):
+            for y0 in (np.array([0.3, 0.7]), np.array([0.7, 0.3]), np.array([-0.2, 1.1])):
+                fm = lambda y, sgn=sgn: np.array([2 * y[0] - 3 * y[1], sgn * np.exp(2 * y[1])])
+                want = np.array([[2.0, -3.0], [0.0, sgn * 2 * np.exp(2 * y0[1])]])
+                got = np.asarray(U.JacobianWrapper(fm, base_order=bo, flat=False)(y0))
+                cases += 1
+                err = float(np.max(np.abs(got - want)) / (1 + np.max(np.abs(want))))
+                if err > 1e-9:
+                    fail("accuracy-mixed-entries", base_order=bo, sign=sgn, y0=list(map(float, y0)), err=err)
     # dispatch sequences at varying t
     def rhs(t, y):
         return np.array([-(1 + t) * y[0] + y[1], -t * t * y[1]])
